@@ -527,10 +527,27 @@ def replay(ctx, data):
                                  "input_codepoints": [ord(c) for c in x], "observed": obs})
             print("still fails:", key, what, repr(obs))
     elif r.get("branch") == "xml" and "document" in r:
+        from lxml import etree
         d = r["document"]
-        out = normalize(d, is_xml=True)
-        print("normalize(doc):", repr(out))
-        print("normalize(normalize(doc)) == normalize(doc):", normalize(out, is_xml=True) == out)
-        run(ctx)
+        rep = {"kind": "impl-vs-statement", "branch": "xml", "document": d}
+        try:
+            out = normalize(d, is_xml=True)
+            print("normalize(doc):", repr(out))
+            inp = x_of_lxml(etree.XML(d.encode("utf-8")))
+            o1 = x_of_lxml(etree.XML(out.encode("utf-8")))
+            again = normalize(out, is_xml=True)
+        except Exception as e:
+            ctx.fail("C20:xml:raises", f"{type(e).__name__}: {e}", rep)
+            print("still fails:", type(e).__name__, e)
+            return
+        probs = ([("C20:xml:structure", "elements / attribute names / order changed")] if x_skeleton(o1) != x_skeleton(inp)
+                 else xml_statement(inp, o1, EXPECTED_PROTECTED))
+        if again != out:
+            probs.append(("C20:xml:idempotent", "normalize(normalize(doc)) != normalize(doc)"))
+        for key, what in probs:
+            ctx.fail(key, what, dict(rep, observed=out))
+            print("still fails:", key, what)
+        if not probs:
+            print("the statement holds on this document now")
     else:
         run(ctx)
